@@ -100,7 +100,8 @@ Definition add_to_dict (name : str) (d : entry) (st : store) : str * store :=
 (* from_operator: variables = dict(op.variables); variables.update(updates) — an overridden variable's whole
    definition ("output(0.5)") is replaced by the bare number *)
 Definition merge_vars (vars : list (str * vspec)) (u : upd) : list (str * vspec) :=
-  fold_left (fun acc kv => set_assoc (fst kv) (VConst, snd kv) acc) u vars.
+  fold_left (fun (acc : list (str * vspec)) (kv : str * Z) =>
+               set_assoc (fst kv) ((match @assoc vspec (fst kv) acc with Some (t, _) => t | None => VConst end, snd kv) : vspec) acc) u vars.
 Definition op_entry (op : opT) (u : upd) : entry := EOp (o_eqs op) (merge_vars (o_vars op) u).
 Definition dump_op (op : opT) (u : upd) (st : store) : str * store := add_to_dict (o_name op) (op_entry op u) st.
 
@@ -245,7 +246,7 @@ Definition all_nodes (c : circ) : list nodeT :=
   flat_map (fun kf => map snd (f_nodes (snd kf)) ++ flat_map (fun e => match ed_tpl e with Some t => [t] | None => [] end) (f_edges (snd kf))) (c_subs c)
   ++ map snd (own_nodes c) ++ flat_map (fun e => match ed_tpl e with Some t => [t] | None => [] end) (c_edges c).
 Definition const_upd (ou : opT * upd) : bool :=
-  forallb (fun kv => match assoc (fst kv) (o_vars (fst ou)) with Some (VConst, _) => true | _ => false end) (snd ou).
+  forallb (fun kv => match assoc (fst kv) (o_vars (fst ou)) with Some _ => true | None => false end) (snd ou).
 Definition const_overrides (c : circ) : bool := forallb (fun nd => forallb const_upd (n_ops nd)) (all_nodes c).
 
 (* representation invariant of Python dicts: keys are unique *)
